@@ -4,7 +4,7 @@
    conversion and of interpreters/pdl_interp.py); Spec: position semantics eval_pos / seq_eval in
    C27/ProofsChain.v, side conditions in C27/ProofsMatch.v and C27/Proofs.v. *)
 From Coq Require Import ZArith List Bool.
-From XV Require Import Base.Show C27.Model C27.Enc C27.ProofsChain C27.ProofsOrder C27.ProofsMatch C27.ProofsGuard C27.Proofs.
+From XV Require Import Base.Show C27.Model C27.Enc C27.ProofsChain C27.ProofsOrder C27.ProofsMatch C27.ProofsGuard C27.ProofsTotal C27.Proofs.
 Import ListNotations.
 Local Open Scope Z_scope.
 
@@ -73,6 +73,14 @@ Theorem C27_matcher_never_raises : forall fx P pl x c,
   interp_match fx c pl x <> IErr.
 Proof. exact compile_guarded_no_raise. Qed.
 Print Assumptions C27_matcher_never_raises.
+
+(* C27_compile_total: the (modelled) conversion never fails on a pattern of the restricted language whose rewrite
+   part only refers to values that exist -- locals defined by an earlier statement, constants, match-part values
+   reached by the match tree (`rewrite_refs_ok`, executable).  The only failure of the real conversion in the
+   language is the assertion "Expected value to be a pattern input". *)
+Theorem C27_compile_total : forall fx P, rewrite_refs_ok fx P = true -> exists c, compile fx P = Some c.
+Proof. exact compile_total. Qed.
+Print Assumptions C27_compile_total.
 
 (* as found: the constant attribute 0 : i32 is dropped by the conversion; the converted matcher rewrites an operation the direct one rejects.  With the repairs both agree *)
 Theorem C27_match_equiv_refuted_falsy_constant :
@@ -160,3 +168,6 @@ Print Assumptions C27_example_side_conditions_static.
 Example C27_example_guarded : compile_guarded as_found ex_pattern = true /\ compile_guarded repaired ex_pattern = true.
 Proof. split; vm_compute; reflexivity. Qed.
 Print Assumptions C27_example_guarded.
+Example C27_example_refs_ok : rewrite_refs_ok as_found ex_pattern = true.
+Proof. vm_compute. reflexivity. Qed.
+Print Assumptions C27_example_refs_ok.
